@@ -466,7 +466,7 @@ C17_run(H) ==
                  THEN hops[k].addr = "" /\ hops[k].rtt_us = 0 /\ ~hops[k].reach /\ Len(hops[k].names) = 0
                  ELSE /\ hops[k].addr = ex.routers[k] /\ hops[k].rtt_us = 1000 * k /\ hops[k].reach
                       /\ hops[k].names = (IF ex.rdns THEN <<"name-of-hop">> ELSE <<>>)
-         /\ hops[8].addr # ""
+         /\ (IF ex.private_target /\ ex.skip THEN hops[8].addr = "" /\ ~hops[8].reach ELSE hops[8].addr # "")
 
 \* C13: the document reported on a real kernel path equals KernelPath!Expected (CLI output has no destination flag:
 \* there the clipped length and the positive end-to-end sample show that the destination was recognised)
